@@ -307,3 +307,59 @@ Example C06_ex_genuine :
   | Err _ => None
   end = Some ([[x68; x69]], EOF).
 Proof. vm_compute. reflexivity. Qed.
+
+(* ===== BEGIN props/C06.v ===== *)
+(* ---- END TO END (source level): what the TRANSLATED saltpack.Verify / NewVerifyStream release was signed by the key they
+   return (composition of go_Verify + verify_outcome_model / go_NewVerifyStream + the per-chunk tie on the constructor's
+   object with C06_all_at_once / C06_authentic); proofs/GoEndToEndAuth.v. ---- *)
+From SP Require GoAstOpen GoAstRecv GoAstProofs4b GoAstProofs5a GoAstProofs7c GoEndToEndAuth.
+Section C06_source_end_to_end.
+Import GoLang GoLang2 GoAstOpen GoAstRecv GoAstProofs4b GoAstProofs7c GoEndToEndAuth.
+Local Open Scope string_scope.
+
+Theorem C06_source_end_to_end_Verify (c : crypto) (Hsha : forall x, List.length (sha512 c x) = 64%nat)
+        (vd : validator) (kr : sigring) (VV KR : gval) (input pk msg : bytes) (L : list sign_event) :
+  Forall event_ok L -> headers_distinct pk L ->
+  (N.of_nat (List.length input) < 18446744073709551616)%N -> (len pk < 4294967296)%N ->
+  verify_class (fst (run_func2 (ext_verify c vd kr) f_saltpack_Verify [VV; VBytes input; KR])) = Ok (pk, msg) ->
+  (exists v nonce ps, In (EvAttached v nonce ps) L /\ msg = List.concat (map fst ps))
+  \/ AttBreak c vd pk L input.
+Proof. exact (go_Verify_authentic c Hsha vd kr VV KR input pk msg L). Qed.
+
+Theorem C06_source_end_to_end_Verify_nil_error (c : crypto) (Hsha : forall x, List.length (sha512 c x) = 64%nat)
+        (vd : validator) (kr : sigring) (VV KR : gval) (input : bytes) (sg body : gval) (L : list sign_event) :
+  Forall event_ok L ->
+  (N.of_nat (List.length input) < 18446744073709551616)%N ->
+  fst (run_func2 (ext_verify c vd kr) f_saltpack_Verify [VV; VBytes input; KR]) = ORet [sg; body; VNil] ->
+  exists pk msg,
+    sg = g_spk pk /\ body = VBytes msg /\
+    (headers_distinct pk L -> (len pk < 4294967296)%N ->
+     (exists v nonce ps, In (EvAttached v nonce ps) L /\ msg = List.concat (map fst ps))
+     \/ AttBreak c vd pk L input).
+Proof. exact (go_Verify_authentic_nil_error c Hsha vd kr VV KR input sg body L). Qed.
+
+Theorem C06_source_end_to_end_NewVerifyStream (c : crypto) (Hsha : forall x, List.length (sha512 c x) = 64%nat)
+        (vd : validator) (kr : sigring) (VV r KR : gval) (input : bytes) (sg rdr : gval) (L : list sign_event) :
+  Forall event_ok L ->
+  (N.of_nat (List.length input) < 18446744073709551616)%N ->
+  rdr_bytes r = Some input ->
+  fst (run_func2 (ext_NVS c vd kr) f_saltpack_NewVerifyStream [VV; r; KR]) = ORet [sg; rdr; VNil] ->
+  exists pk obj,
+    sg = g_spk pk /\ rdr = g_cr_new obj /\
+    (headers_distinct pk L -> (len pk < 4294967296)%N ->
+     forall F, (N.of_nat F <= 18446744073709551616)%N ->
+       let d := go_drain (ext_chunk_key c TBytes) f_saltpack_verifyStream_getNextChunk "v" F obj in
+       exists chunks tl,
+         fst d = (chunks ++ tl)%list /\ (tl = [] \/ tl = [[]]) /\
+         ((chunks = [] /\ snd d <> Some (VErr "io.EOF" [])) \/
+          (exists v nonce ps,
+              In (EvAttached v nonce ps) L /\
+              list_prefix chunks (map fst ps) /\
+              (snd d = Some (VErr "io.EOF" []) -> chunks = map fst ps))
+          \/ AttBreak c vd pk L input)).
+Proof. exact (go_NewVerifyStream_authentic c Hsha vd kr VV r KR input sg rdr L). Qed.
+End C06_source_end_to_end.
+Print Assumptions C06_source_end_to_end_Verify.
+Print Assumptions C06_source_end_to_end_Verify_nil_error.
+Print Assumptions C06_source_end_to_end_NewVerifyStream.
+
